@@ -199,30 +199,42 @@ def forChunks16 (f : Bytes → Outcome Bytes) : Nat → Bytes → Outcome Bytes
     let rest ← forChunks16 f n (bs.drop 16)
     pure (b ++ rest)
 
-/-- `JoinAccept::build_into(buf, crypto)` (`crypto : NetworkCrypto`) -/
-def JoinAccept.buildInto (d : JoinAccept) (buf : Bytes) (cr : Crypto) : Outcome Bytes := do
-  let len := if d.cFList.isSome then 33 else 17
-  let out ← if len ≤ buf.length then pure (buf.take len) else .err .bufferTooShort
+/-- `out[0] = 0x20; out[1..4] = join_nonce; out[4..7] = net_id; out[7..11] = dev_addr;
+out[11] = dl_settings; out[12] = rx_delay & 0x0f` -/
+def JoinAccept.writeFixedFields (d : JoinAccept) (out : Bytes) : Outcome Bytes := do
   let out ← setByte out 0 0x20
   let out ← copyFromSlice out 1 4 d.joinNonce.toList
   let out ← copyFromSlice out 4 7 d.netId.toList
   let out ← copyFromSlice out 7 11 d.devAddr.toList
   let out ← setByte out 11 d.dlSettings
-  let out ← setByte out 12 (d.rxDelay &&& 0x0f)
-  let out ← match d.cFList with
-    | none => pure out
-    | some (.dynamicChannel freqs) => do
-      let out ← writeFreqs out 0 freqs.toList
-      setByte out 28 0
-    | some (.fixedChannel mask) => do
-      let out ← copyFromSlice out 13 22 mask.toList
-      let out ← copyFromSlice out 22 28 (List.replicate 6 0)     -- `out[22..28].fill(0)`
-      setByte out 28 1
-  let out ← writeMic cr out
-  -- `for block in out[MHDR_LEN..].chunks_exact_mut(16) { crypto.decrypt_block(block) }`
+  setByte out 12 (d.rxDelay &&& 0x0f)
+
+/-- `match &self.c_f_list { … }` -/
+def writeCfList (cf : Option CfList) (out : Bytes) : Outcome Bytes :=
+  match cf with
+  | none => pure out
+  | some (.dynamicChannel freqs) => do
+    let out ← writeFreqs out 0 freqs.toList
+    setByte out 28 0
+  | some (.fixedChannel mask) => do
+    let out ← copyFromSlice out 13 22 mask.toList
+    let out ← copyFromSlice out 22 28 (List.replicate 6 0)     -- `out[22..28].fill(0)`
+    setByte out 28 1
+
+/-- `for block in out[MHDR_LEN..].chunks_exact_mut(16) { crypto.decrypt_block(block) }` -/
+def decryptTail (cr : Crypto) (out : Bytes) : Outcome Bytes := do
   let tail ← slice out 1 out.length
   let tail ← forChunks16 cr.decryptBlock (tail.length / 16) tail
   copyFromSlice out 1 out.length tail
+
+/-- `JoinAccept::build_into(buf, crypto)` (`crypto : NetworkCrypto`) -/
+def JoinAccept.buildInto (d : JoinAccept) (buf : Bytes) (cr : Crypto) : Outcome Bytes := do
+  let len := if d.cFList.isSome then 33 else 17
+  let out ← if len ≤ buf.length then pure (buf.take len) else .err .bufferTooShort
+  let out ← d.writeFixedFields out
+  let out ← writeCfList d.cFList out
+  let out ← writeMic cr out
+  decryptTail cr out
 
 /-- `creator::Payload`; the `NonZeroU8` port carries its proof -/
 inductive Payload where
@@ -256,20 +268,28 @@ def DataFrame.fctrl (d : DataFrame) : UInt8 :=
   let b := if d.fPending && !d.frameType.isUplink then b ||| 0x10 else b
   b
 
-/-- `DataFrame::build_into(buf, nwk_crypto, app_crypto)`; both crypto objects share the cipher `c` -/
-def DataFrame.buildInto (c : Cipher) (d : DataFrame) (buf : Bytes) (nwk : Key) (app : Option Key) :
-    Outcome Bytes :=
-  if d.fOpts.length > 15 then .err .fOptsTooLong else do
-  let (fPort, frm, encKey) ← (match d.payload with
-    | .none => pure (none, [], nwk)
-    | .data p _ data => do
-      let k ← Outcome.okOr app .missingKey
-      pure (some p, data, k)
-    | .macCommands cmds =>
-      if !d.fOpts.isEmpty then .err .fOptsWithFPortZero else pure (some 0, cmds, nwk)
-    : Outcome (Option UInt8 × Bytes × Key))
+/-- `f_port.map_or(0, |_| 1)` -/
+def portLen : Option UInt8 → Nat
+  | some _ => 1
+  | none => 0
+
+/-- `if !frm.is_empty() { encrypt_frm_data_payload(out, cursor, cursor + frm.len(), fcnt, enc_crypto) }` -/
+def encryptIfNonEmpty (cr : Crypto) (out : Bytes) (cursor : Nat) (frm : Bytes) (fcnt : UInt32) : Outcome Bytes :=
+  if !frm.isEmpty then encryptFrmDataPayload cr out cursor (cursor + frm.length) fcnt else .ok out
+
+/-- the last three statements of `build_into`: MIC over `out[..mic_offset]`, written to `out[mic_offset..]` -/
+def writeDataMic (cr : Crypto) (out : Bytes) (total : Nat) (fcnt : UInt32) : Outcome Bytes := do
+  let micOffset ← usizeSub total 4
+  let pre ← slice out 0 micOffset
+  let mic ← calculateDataMic cr pre fcnt
+  copyFromSlice out micOffset out.length mic
+
+/-- the part of `build_into` after the validity checks: `f_port`, `frm`, `enc_crypto` are decided -/
+def DataFrame.writeFrame (c : Cipher) (d : DataFrame) (buf : Bytes) (nwk : Key)
+    (fPort : Option UInt8) (frm : Bytes) (encKey : Key) : Outcome Bytes := do
   let fhdrLen := 7 + d.fOpts.length
-  let total := 1 + fhdrLen + (match fPort with | some _ => 1 | none => 0) + frm.length + 4
+  let total := 1 + fhdrLen + portLen fPort + frm.length + 4
+  -- `buf.get_mut(..total).ok_or(Error::BufferTooShort)?`
   let out ← if total ≤ buf.length then pure (buf.take total) else .err .bufferTooShort
   let out ← setByte out 0 d.mhdr
   let out ← copyFromSlice out 1 5 d.devAddr.toList
@@ -283,13 +303,21 @@ def DataFrame.buildInto (c : Cipher) (d : DataFrame) (buf : Bytes) (nwk : Key) (
       pure (out, cursor + 1)
     | none => pure (out, cursor) : Outcome (Bytes × Nat))
   let out ← copyFromSlice out cursor (cursor + frm.length) frm
-  let out ← if !frm.isEmpty then
-      encryptFrmDataPayload ⟨c, encKey⟩ out cursor (cursor + frm.length) d.fcnt
-    else pure out
-  let micOffset ← usizeSub total 4
-  let pre ← slice out 0 micOffset
-  let mic ← calculateDataMic ⟨c, nwk⟩ pre d.fcnt
-  copyFromSlice out micOffset out.length mic
+  let out ← encryptIfNonEmpty ⟨c, encKey⟩ out cursor frm d.fcnt
+  writeDataMic ⟨c, nwk⟩ out total d.fcnt
+
+/-- `DataFrame::build_into(buf, nwk_crypto, app_crypto)`; both crypto objects share the cipher `c` -/
+def DataFrame.buildInto (c : Cipher) (d : DataFrame) (buf : Bytes) (nwk : Key) (app : Option Key) :
+    Outcome Bytes :=
+  if d.fOpts.length > 15 then .err .fOptsTooLong else
+  match d.payload with
+  | .none => d.writeFrame c buf nwk none [] nwk
+  | .data p _ data =>
+    match app with
+    | none => .err .missingKey          -- `app_crypto.ok_or(Error::MissingKey)?`
+    | some k => d.writeFrame c buf nwk (some p) data k
+  | .macCommands cmds =>
+    if !d.fOpts.isEmpty then .err .fOptsWithFPortZero else d.writeFrame c buf nwk (some 0) cmds nwk
 
 /-! ## parser.rs — data frames -/
 
